@@ -36,6 +36,8 @@ MUTANTS = [
         {"file": "src/broker/update.rs", "after": "let proxy_resource = self.generate_new_free_proxy(failed_proxy_address.clone())?;", "old": "        let new_epoch = self.store.bump_global_epoch();\n", "new": "        let new_epoch = self.store.get_global_epoch();\n"}],
      "expect": "C04.D1:bump:update::MetaStoreUpdate::replace_failed_proxy"},
     {"name": "cluster-epoch-set-before-err-return", "file": "src/broker/update.rs", "old": "                if removed_chunks.is_empty() {\n                    return Err(MetaStoreError::FreeNodeNotFound);\n                }\n\n                cluster.set_epoch(new_epoch);\n", "new": "                cluster.set_epoch(new_epoch);\n                if removed_chunks.is_empty() {\n                    return Err(MetaStoreError::FreeNodeNotFound);\n                }\n", "expect": "C04.D1:err-after-epoch-write"},
+    {"name": "external-commit-not-written-back", "file": "src/broker/external.rs", "old": "        store.commit_migration(task, clear_free_nodes)?;\n        self.update_external_store_and_cache(ExternalStore { store, version })\n            .await?;\n        Ok(())", "new": "        store.commit_migration(task, clear_free_nodes)?;\n        let _ = version;\n        Ok(())", "expect": "C04.D4:external-writes-back:commit_migration"},
+    {"name": "memory-backend-calls-other-method", "file": "src/broker/storage.rs", "old": "        self.store.write().auto_add_nodes(cluster_name, node_num)", "new": "        self.store.write().auto_scale_up_nodes(cluster_name, node_num)", "expect": "C04.D4:same-store-call"},
 ]
 
 MS = "broker::store::MetaStore"
@@ -259,6 +261,8 @@ def run(ctx):
 
     _d2(ctx, eff)
     _d3(ctx)
+    ctx.rule("C04.D4", "storage back-ends agree: for every MetaStorage method the in-memory and the external back-end call the same MetaStore methods, and the external one writes the store back after a mutator")
+    _backends_agree(ctx)
 
 
 def _is_barrier(F, eff, e):
@@ -584,3 +588,47 @@ def _d3(ctx):
                           ok="limited view copies self.epoch", bad="limit_migration changes the epoch: %s" % sl.summary())
         if not found:
             ctx.lost("C04.D3", "view-epoch:" + label, "no Cluster::new / ClusterStore construction found in %s" % fn)
+
+
+def _backends_agree(ctx):
+    """the broker serves from MemoryStorage or ExternalHttpStorage; both are thin wrappers over MetaStore.  A wrapper that
+    calls another store method than its sibling, or (external) never writes the mutated copy back, serves epochs / content that
+    the store's own rules (D1-D3) do not describe"""
+    F = ctx.F
+    per = {"memory": {}, "external": {}}
+    for b in F.all_bodies(bins=False):
+        if b.is_mock() or b.kind == "Promoted" or "tests::" in b.path or not b.path.endswith("::{closure#0}"):
+            continue
+        if b.path.startswith("<broker::storage::MemoryStorage as broker::storage::MetaStorage>::"):
+            k = "memory"
+        elif b.path.startswith("<broker::external::ExternalHttpStorage as broker::storage::MetaStorage>::"):
+            k = "external"
+        else:
+            continue
+        meth = b.path.split("MetaStorage>::", 1)[1].split("::", 1)[0]
+        per[k][meth] = b
+    common = sorted(set(per["memory"]) & set(per["external"]))
+    if not ctx.floor("C04.D4", "MetaStorage methods implemented by both back-ends", len(common), 25):
+        return
+    muts = {p.rsplit("::", 1)[-1] for p, b in F.bodies.items() if b.impl_adt == MS and b.kind == "AssocFn" and b.sig and b.sig.get("self") in ("refmut", "&mut")}
+    for meth in common:
+        mb, eb = per["memory"][meth], per["external"][meth]
+        ctx.analysed(mb, eb)
+        mc = sorted({(callee_of(t) or "").rsplit("::", 1)[-1] for bb, t in mb.calls() if (callee_of(t) or "").startswith(MS + "::")})
+        ec = sorted({(callee_of(t) or "").rsplit("::", 1)[-1] for bb, t in eb.calls() if (callee_of(t) or "").startswith(MS + "::")})
+        # helper reads used by the external back-end to decide whether to persist are not part of the comparison
+        ec_cmp = [x for x in ec if x not in ("get_global_epoch",) or x in mc]
+        if meth in ("get_all_metadata", "restore_metadata"):
+            continue   # whole-store transfer: no MetaStore method on the external side (cache swap), checked by C13
+        ctx.check(mc == ec_cmp, "C04.D4", "same-store-call:%s" % meth, site(eb), ok="both back-ends call MetaStore::%s" % ",".join(mc), bad="MemoryStorage::%s calls %s but ExternalHttpStorage::%s calls %s" % (meth, mc, meth, ec_cmp))
+        called_muts = [x for x in ec if x in muts]
+        if meth == "get_failures":
+            # vetted: the only mutation is the purge of expired reports on a clone of the cache; it is repeated by every
+            # call and by the periodic refresh, and changes nothing that is versioned by an epoch
+            ctx.info("C04.D4", "external-writes-back:get_failures", "purge of expired reports on a cache clone; not written back by design")
+            called_muts = []
+        if called_muts:
+            pers = [bb for bb, t in eb.calls() if (callee_of(t) or "").rsplit("::", 1)[-1] in ("update_external_store_and_cache", "update_external_store")]
+            mcalls = [bb for bb, t in eb.calls() if (callee_of(t) or "").rsplit("::", 1)[-1] in called_muts and (callee_of(t) or "").startswith(MS + "::")]
+            ok = bool(pers) and all(any(cfg.reaches(eb, m_, p_) for p_ in pers) for m_ in mcalls)
+            ctx.check(ok, "C04.D4", "external-writes-back:%s" % meth, site(eb, mcalls[0]) if mcalls else site(eb), ok="the mutated copy is written back", bad="ExternalHttpStorage::%s mutates the fetched copy with %s and never writes it back: the change (and its epoch) is lost with the copy" % (meth, called_muts))
